@@ -120,7 +120,7 @@ func (ex *Exec) iteratorCall(s *State, fr *Frame, c *ssa.Call, it FuncV, body Fu
 		return vars
 	}
 	env := &SpecEnv{ex: ex, cur: s, old: s, vars: mkVars(), fn: bf, calleeMode: true}
-	anchor := ex.prog.SrcAnchor(c.Pos())
+	anchor := ex.anchor(c.Pos())
 	for i, r := range ct.Requires {
 		ex.check(s, "requires", fmt.Sprintf("%s/%s/iter:%s@%s/requires#%d", ex.layer, caller, name, anchor, i+1), env.evalProve(r.Expr), c.Pos(), r.Src)
 	}
@@ -237,7 +237,7 @@ func (ex *Exec) applyContract(s *State, fr *Frame, c *ssa.Call, f *ssa.Function,
 			label = fmt.Sprintf("requires#%d", i+1)
 		}
 		g := env.evalProve(r.Expr)
-		ex.check(s, "requires", fmt.Sprintf("%s/%s/call:%s@%s/%s", ex.layer, caller, name, ex.prog.SrcAnchor(c.Pos()), label), g, c.Pos(), r.Src)
+		ex.check(s, "requires", fmt.Sprintf("%s/%s/call:%s@%s/%s", ex.layer, caller, name, ex.anchor(c.Pos()), label), g, c.Pos(), r.Src)
 	}
 	// havoc
 	var hv []string
@@ -488,10 +488,10 @@ func (ex *Exec) builtin(s *State, fr *Frame, c *ssa.Call, name string, args []Va
 		ex.check(s, "safety", ex.obName(fr, "unsafe.Slice", c), ICmp("<=", IntC(0), n), c.Pos(), "unsafe.Slice: length non-negative")
 		if ex.opts["extent"] == "on" && p.Ext.S != "" {
 			// pointer into a fixed array field: the slice must end inside that array
-			ex.emit(s, "extent", fmt.Sprintf("extent/%s/unsafe.Slice@%s", normName(fr.fn.RelString(ex.prog.SSA.Pkg)), ex.prog.SrcAnchor(c.Pos())), ICmp("<=", n, p.Ext), c.Pos(), "unsafe.Slice stays inside the array its base pointer points into")
+			ex.emit(s, "extent", fmt.Sprintf("extent/%s/unsafe.Slice@%s", normName(fr.fn.RelString(ex.prog.SSA.Pkg)), ex.anchor(c.Pos())), ICmp("<=", n, p.Ext), c.Pos(), "unsafe.Slice stays inside the array its base pointer points into")
 		} else if ex.opts["extent"] == "on" {
 			bl := s.H(ex, "blen", ArrSort(SRef, SInt))
-			ex.emit(s, "extent", fmt.Sprintf("extent/%s/unsafe.Slice@%s", normName(fr.fn.RelString(ex.prog.SSA.Pkg)), ex.prog.SrcAnchor(c.Pos())), Or(Eq(n, IntC(0)), ICmp("<=", IAdd(p.Idx, n), Select(bl, p.Obj))), c.Pos(), "unsafe.Slice stays inside the allocation of its base pointer")
+			ex.emit(s, "extent", fmt.Sprintf("extent/%s/unsafe.Slice@%s", normName(fr.fn.RelString(ex.prog.SSA.Pkg)), ex.anchor(c.Pos())), Or(Eq(n, IntC(0)), ICmp("<=", IAdd(p.Idx, n), Select(bl, p.Obj))), c.Pos(), "unsafe.Slice stays inside the allocation of its base pointer")
 		}
 		return SliceV{Kind: SlBytes, Obj: p.Obj, Off: p.Idx, Len: n, Cap: n, Elem: types.Typ[types.Uint8]}
 	case "SliceData":
@@ -1056,7 +1056,7 @@ func (ex *Exec) poolPut(s *State, fr *Frame, c *ssa.Call, args []Value) {
 	rv := iv.Val.(RefV)
 	names := []string{"node4", "node16", "node48", "node256"}
 	caller := normName(fr.fn.RelString(ex.prog.SSA.Pkg))
-	site := fmt.Sprintf("%s/put@%s", caller, ex.prog.SrcAnchor(c.Pos()))
+	site := fmt.Sprintf("%s/put@%s", caller, ex.anchor(c.Pos()))
 	if kind < 0 || kind > 3 || baseTypeName(iv.Dyn) != names[kind] {
 		ex.emit(s, "pool", "B/"+site+"/put_kind", False, c.Pos(), "node returned to the pool of its own class")
 		return
@@ -1094,7 +1094,7 @@ func (ex *Exec) abstractCall(s *State, fr *Frame, c *ssa.Call, fv FuncV, args []
 			stopped = BoolV{T: False}
 		}
 		caller := normName(fr.fn.RelString(ex.prog.SSA.Pkg))
-		ex.emit(s, "protocol", fmt.Sprintf("D/%s/protocol/no_call_after_false@%s", caller, ex.prog.SrcAnchor(c.Pos())), Not(stopped.T), c.Pos(), "yield is not called again after it returned false")
+		ex.emit(s, "protocol", fmt.Sprintf("D/%s/protocol/no_call_after_false@%s", caller, ex.anchor(c.Pos())), Not(stopped.T), c.Pos(), "yield is not called again after it returned false")
 		r := ex.st.Fresh("yield.ret", SBool)
 		s.ghost["stopped"] = BoolV{T: Or(stopped.T, Not(r))}
 		n, _ := s.ghost["yields"].(IntV)
@@ -1282,7 +1282,7 @@ func (ex *Exec) checkCaptures(s *State, fr *Frame, mc *ssa.MakeClosure, bs []Val
 			label = fmt.Sprintf("captures#%d", i+1)
 		}
 		g := env.evalProve(r.Expr)
-		ex.check(s, "captures", fmt.Sprintf("%s/%s/closure:%s@%s/%s", ex.layer, caller, name, ex.prog.SrcAnchor(mc.Pos()), label), g, mc.Pos(), r.Src)
+		ex.check(s, "captures", fmt.Sprintf("%s/%s/closure:%s@%s/%s", ex.layer, caller, name, ex.anchor(mc.Pos()), label), g, mc.Pos(), r.Src)
 	}
 }
 
